@@ -2,6 +2,7 @@ package main
 
 import (
 	"fmt"
+	"go/ast"
 	"go/token"
 	"go/types"
 	"os"
@@ -31,6 +32,8 @@ type Program struct {
 	callers        map[*ssa.Function][]Call
 	alias          map[*ssa.Function]string // renamed function -> recorded identity
 	renameCand     map[*ssa.Function]bool   // unmatched new functions with the signature of a disappeared recorded one
+	synthFile      *ast.File                // synthetic loop helpers for std generic search functions (normalize.go)
+	synthSrc       map[string][]byte
 	Renames        []string
 	Normalized     []string // new helpers inlined by the normalisation pre-pass (normalize.go)
 	addrTaken      map[*ssa.Function]bool
